@@ -23,6 +23,7 @@ import subprocess
 import sys
 import tempfile
 import time
+import types
 
 import numpy as np
 import z3
@@ -53,9 +54,26 @@ class Setup:
         self.q = np.array(Q)
 
 
-def _proc_main(setup):
+_KCODE = {}
+
+
+def fresh_kerneldll():
+    """A new copy of the kerneldll module = the module-level state of an
+    independently started process (the source is executed again)."""
+    path = kerneldll.__file__
+    if path not in _KCODE:
+        with open(path) as f:
+            _KCODE[path] = compile(f.read(), path, "exec")
+    mod = types.ModuleType("sasmodels.kerneldll")
+    mod.__file__ = path
+    mod.__package__ = "sasmodels"
+    exec(_KCODE[path], mod.__dict__)
+    return mod
+
+
+def _proc_main(setup, mod):
     def main(p):
-        model = kerneldll.load_dll(setup.source, setup.info, setup.dtype)
+        model = mod.load_dll(setup.source, setup.info, setup.dtype)
         model.make_kernel([setup.q])
         lib = model._dll
         return {"path": model.dllpath, "digest": getattr(lib, "digest", None),
@@ -63,19 +81,24 @@ def _proc_main(setup):
     return main
 
 
-def shared_names(setup, dir_exists):
-    """Names in the cache directory that are the same in two independent
-    single-process runs (= names another process can know)."""
+def shared_names(setup, dir_exists, kind):
+    """Names in the cache directory that are the same in two single-process
+    runs of this process kind (= names another process can know)."""
     runs = []
     for _ in range(2):
-        r = run_model(setup, 1, S.ScriptedChooser([]), dir_exists=dir_exists, shared="all")
+        r = run_model(setup, 1, S.ScriptedChooser([]), dir_exists=dir_exists, shared="all", kind=kind)
         runs.append(set(r["touched"]))
     return runs[0] & runs[1]
 
 
-def run_model(setup, nproc, chooser, dir_exists=True, shared=None):
+def run_model(setup, nproc, chooser, dir_exists=True, shared=None, kind="independent"):
     """One run of N concurrent first loads (+ one fresh load afterwards) on a
-    new virtual filesystem under *chooser*.  Returns a plain dict of facts."""
+    new virtual filesystem under *chooser*.  Returns a plain dict of facts.
+
+    kind "forked": the N processes share the module-level state of kerneldll
+    (workers forked after the import); "independent": every process has its
+    own copy of the module (interpreters started separately).  The later fresh
+    process is always a separately started one."""
     vfs = V.VFS(volatile=[VDLL])
     vfs.shared_names = None if shared == "all" else shared
     if dir_exists:
@@ -84,14 +107,18 @@ def run_model(setup, nproc, chooser, dir_exists=True, shared=None):
     vfs.hook = sc.hook
     vfs.owner = sc.current_pid
     patch = V.Patch()
-    V.attach_kerneldll(patch, vfs, kerneldll, pid=lambda: 1000 + sc.current_pid())
-    patch.set(kerneldll, "SAS_DLL_PATH", VDLL)
+
+    def bind(mod):
+        V.attach_kerneldll(patch, vfs, mod, pid=lambda: 1000 + sc.current_pid())
+        patch.set(mod, "SAS_DLL_PATH", VDLL)
+        return mod
     try:
+        bind(kerneldll)
         final = kerneldll.dll_path(setup.info.id + "_" + generate.tag_source(setup.source),
                                    setup.dtype)
-        main = _proc_main(setup)
         for _ in range(nproc):
-            sc.spawn(main)
+            mod = kerneldll if kind == "forked" else bind(fresh_kerneldll())
+            sc.spawn(_proc_main(setup, mod))
         sc.run()
         procs = []
         for p in sc.procs:
@@ -100,14 +127,15 @@ def run_model(setup, nproc, chooser, dir_exists=True, shared=None):
         quiescent = {"exists": ino is not None,
                      "complete": bool(ino is not None and V.well_formed(ino))}
         ntrace = len(sc.trace)
-        fresh = sc.spawn(main)
+        fresh = sc.spawn(_proc_main(setup, bind(fresh_kerneldll())))
         sc.run([fresh])
         ff = _proc_facts(fresh, setup, final)
         ino = vfs.peek(final)
         after = {"exists": ino is not None,
                  "complete": bool(ino is not None and V.well_formed(ino))}
         return {"procs": procs, "fresh": ff, "quiescent": quiescent, "after": after,
-                "crashed": sc.crashed, "trace": [list(t) for t in sc.trace[:ntrace]],
+                "crashed": sc.crashed, "child_killed": sc.child_killed,
+                "trace": [list(t) for t in sc.trace[:ntrace]],
                 "fresh_trace": [list(t) for t in sc.trace[ntrace:]],
                 "final": final, "compiles": vfs.compiles,
                 "touched": sorted({pth for _o, _l, pth in vfs.log if vfs._is_volatile(pth)}),
@@ -139,8 +167,8 @@ def _proc_facts(p, setup, final):
 # unit
 
 def cfg_name(cfg):
-    return "N=%d/%s/%s/preempt<=%s/dir=%s/%s/split=%s" % (
-        cfg["n"], cfg["dtype"], "crash" if cfg["crash"] else "nocrash",
+    return "N=%d/%s/%s/%s/preempt<=%s/dir=%s/%s/split=%s" % (
+        cfg["n"], cfg.get("kind", "independent"), cfg["dtype"], "crash" if cfg["crash"] else "nocrash",
         cfg["bound"], "present" if cfg["dir"] else "absent", cfg["tier"], cfg.get("split", "all"))
 
 
@@ -169,7 +197,8 @@ def unit(cfg):
     if lo is not None:
         A += [proto.crash_at >= lo, proto.crash_at <= hi]
 
-    shared = shared_names(setup, cfg["dir"])
+    kind = cfg.get("kind", "independent")
+    shared = shared_names(setup, cfg["dir"], kind)
     if cfg.get("split") in (None, (0,), (0, 0)) and cfg.get("crash_range", (None,))[0] in (None, 0):
         u.note("names treated as shared between processes (same in two independent runs): %s"
                % sorted(os.path.basename(x) for x in shared))
@@ -183,10 +212,10 @@ def unit(cfg):
             # stop: reported as truncated exploration (inconclusive), never as success
             ex.max_paths = 0
         ch = S.SymbolicChooser(crash_candidates=cands, preemption_bound=cfg["bound"])
-        r = run_model(setup, n, ch, dir_exists=cfg["dir"], shared=shared)
+        r = run_model(setup, n, ch, dir_exists=cfg["dir"], shared=shared, kind=kind)
         if not (all(f["ok"] for f in r["procs"] if f["state"] != "dead") and r["fresh"]["ok"]):
             failing[0] += 1
-        if cfg["crash"] and r["crashed"] is None:
+        if cfg["crash"] and r["crashed"] is None and r["child_killed"] is None:
             # crash_at beyond the last yield of process 0: the same run as "no crash"
             raise symx.CutPath("infeasible")
         return r
@@ -215,15 +244,23 @@ def unit(cfg):
                     "not model: %s" % bad_stub[0]["exc"])
             continue
         if r["crashed"]:
-            seen_labels.add(r["crashed"][2])
+            seen_labels.add("process@" + r["crashed"][2])
+        if r["child_killed"]:
+            seen_labels.add("compiler@" + r["child_killed"][2])
         if pi < 2:
             u.sample({"config": name, "path": pi, "schedule": r["choices"][:12],
-                      "crashed": r["crashed"],
-                      "trace_head": ["p%s:%s" % (t[0], t[2]) if t[0] != "crash" else "KILL p%s" % t[1]
+                      "crashed": r["crashed"], "compiler_killed": r["child_killed"],
+                      "trace_head": ["p%s:%s" % (t[0], t[2]) if t[0] not in ("crash", "killcc")
+                                     else "KILL %s p%s" % ("compiler of" if t[0] == "killcc" else "", t[1])
                                      for t in r["trace"][:14]]})
         live = [f for f in r["procs"] if f["state"] != "dead"]
+        # the process whose compiler was killed may report the failed build; what it
+        # must not do is return a kernel on anything but a complete, correct library
+        excused = r["child_killed"][0] if r["child_killed"] else None
         obl = [
-            ("every-live-process-loads-a-complete-library", all(f["ok"] for f in live), "live-load"),
+            ("every-live-process-loads-a-complete-library",
+             all(f["ok"] or (f["pid"] == excused and f["exc_type"] is not None) for f in live),
+             "live-load"),
             ("no-partial-library-under-final-name",
              (not r["quiescent"]["exists"] or r["quiescent"]["complete"]) and
              (not r["after"]["exists"] or r["after"]["complete"]), "partial-left"),
@@ -249,12 +286,16 @@ def unit(cfg):
 
 def finding_key(r, oracle):
     crash = r["crashed"]
-    where = "kill@%s" % crash[2] if crash else "no-kill"
+    ck = r.get("child_killed")
+    where = "kill@%s" % crash[2] if crash else ("compiler-killed@%s" % ck[2] if ck else "no-kill")
     if oracle == "live-load":
-        bad = [f for f in r["procs"] if f["state"] != "dead" and not f["ok"]]
+        excused = ck[0] if ck else None
+        bad = [f for f in r["procs"] if f["state"] != "dead" and not f["ok"]
+               and not (f["pid"] == excused and f["exc_type"] is not None)]
         f = bad[0]
         what = "%s@%s" % (f["exc_type"], f["last"]) if f["exc_type"] else "wrong-library"
-        return "%s/concurrent-load/%s/%s" % (KEYBASE, "with-kill" if crash else "no-kill", what)
+        return "%s/concurrent-load/%s/%s" % (
+            KEYBASE, "with-kill" if crash else ("compiler-killed" if ck else "no-kill"), what)
     if oracle == "partial-left":
         return "%s/partial-library-left-under-final-name/%s" % (KEYBASE, where)
     f = r["fresh"]
@@ -287,13 +328,19 @@ def _handler(cfg, r, oracle, key, path):
         inputs = {"model": MODEL, "dtype": str(np.dtype(cfg["dtype"])), "nproc": cfg["n"],
                   "dir_exists": cfg["dir"], "schedule": sched_vals,
                   "crash": list(r["crashed"]) if r["crashed"] else None,
+                  "compiler_killed": list(r["child_killed"]) if r["child_killed"] else None,
+                  "kind": cfg.get("kind", "independent"),
                   "trace": r["trace"], "oracle": oracle,
                   "final_name": os.path.basename(r["final"])}
         out = real_replay(inputs)
-        what = ("%d concurrent first loads of %r (%s)%s: %s" % (
+        what = ("%d concurrent first loads of %r (%s) by %s%s%s: %s" % (
             cfg["n"], MODEL, inputs["dtype"],
+            "workers forked after importing sasmodels.kerneldll" if inputs["kind"] == "forked"
+            else "separately started processes",
             ", process 0 killed at its yield #%d (%s)" % (r["crashed"][1], r["crashed"][2])
-            if r["crashed"] else "", out["summary"]))
+            if r["crashed"] else "",
+            ", the compiler of process %d killed (-9) at %s" % (r["child_killed"][0], r["child_killed"][2])
+            if r["child_killed"] else "", out["summary"]))
         return {"reproduced": oracle in out["violated"], "key": key, "what": what,
                 "inputs": inputs, "detail": out, "block": z3.And(*path.pc) if path.pc else None}
     return handler
@@ -304,14 +351,14 @@ def _handler(cfg, r, oracle, key, path):
 
 AGENT = r'''
 import json, os, sys
-ctl = os.environ.get("VERIF_CTL"); me = os.environ.get("VERIF_PROC")
-gated = bool(ctl) and me is not None
-if gated:
-    req = open(os.path.join(ctl, "req.%s" % me), "w")
-    ack = open(os.path.join(ctl, "ack.%s" % me), "r")
+ctl = os.environ.get("VERIF_CTL")
+state = {"req": None, "ack": None}
+def open_gates(me):
+    state["req"] = open(os.path.join(ctl, "req.%s" % me), "w")
+    state["ack"] = open(os.path.join(ctl, "ack.%s" % me), "r")
 def gate(label, path=""):
-    req.write(json.dumps({"gate": label, "path": str(path)}) + "\n"); req.flush()
-    if not ack.readline():
+    state["req"].write(json.dumps({"gate": label, "path": str(path)}) + "\n"); state["req"].flush()
+    if not state["ack"].readline():
         os._exit(98)
 KFILE = os.path.join("sasmodels", "kerneldll.py")
 PY = {("genericpath", "exists"): "exists", ("genericpath", "isfile"): "exists",
@@ -350,29 +397,64 @@ def hook(frame, event, arg):
             elif name in C and owner == "module":
                 gate(C[name])
 sys.path.insert(0, os.environ["VERIF_REPO"])
-out = {}
-try:
+
+def do_load(gated):
+    try:
+        import numpy as np
+        from sasmodels import core, generate, kerneldll
+        from sasmodels.direct_model import call_kernel
+        spec = json.loads(os.environ["VERIF_SPEC"])
+        info = core.load_model_info(spec["model"])
+        source = generate.make_source(info)["dll"]
+        dtype = np.dtype(spec["dtype"])
+        q = np.array(spec["q"])
+        if gated:
+            sys.setprofile(hook)
+        try:
+            model = kerneldll.load_dll(source, info, dtype)
+            kernel = model.make_kernel([q])
+        finally:
+            sys.setprofile(None)
+        val = call_kernel(kernel, spec["pars"])
+        return {"ok": True, "value": [float(v) for v in val], "dll": model.dllpath}
+    except BaseException as e:
+        return {"ok": False, "error": ("%s: %s" % (type(e).__name__, e))[:400],
+                "exc_type": type(e).__name__}
+
+if os.environ.get("VERIF_MODE") == "zygote":
+    # parent imports sasmodels (module-level state is created once), then forks the workers
     import numpy as np
     from sasmodels import core, generate, kerneldll
     from sasmodels.direct_model import call_kernel
-    spec = json.loads(os.environ["VERIF_SPEC"])
-    info = core.load_model_info(spec["model"])
-    source = generate.make_source(info)["dll"]
-    dtype = np.dtype(spec["dtype"])
-    q = np.array(spec["q"])
+    procs = json.loads(sys.stdin.readline())
+    kids = {}
+    for me in procs:
+        c = os.fork()
+        if c == 0:
+            os.setsid()
+            os.environ["VERIF_PROC"] = str(me)
+            open_gates(me)
+            out = do_load(True)
+            with open(os.path.join(ctl, "result.%s" % me), "w") as f:
+                json.dump(out, f)
+            os._exit(0)
+        kids[c] = me
+        sys.stdout.write("FORKED %s %d\n" % (me, c)); sys.stdout.flush()
+    while kids:
+        c, status = os.wait()
+        me = kids.pop(c, None)
+        if me is not None:
+            with open(os.path.join(ctl, "exit.%s.tmp" % me), "w") as f:
+                f.write(str(status))
+            os.rename(os.path.join(ctl, "exit.%s.tmp" % me), os.path.join(ctl, "exit.%s" % me))
+else:
+    me = os.environ.get("VERIF_PROC")
+    gated = bool(ctl) and me is not None
     if gated:
-        sys.setprofile(hook)
-    try:
-        model = kerneldll.load_dll(source, info, dtype)
-        kernel = model.make_kernel([q])
-    finally:
-        sys.setprofile(None)
-    val = call_kernel(kernel, spec["pars"])
-    out = {"ok": True, "value": [float(v) for v in val], "dll": model.dllpath}
-except BaseException as e:
-    out = {"ok": False, "error": ("%s: %s" % (type(e).__name__, e))[:400], "exc_type": type(e).__name__}
-print("RESULT " + json.dumps(out))
-sys.stdout.flush()
+        open_gates(me)
+    out = do_load(gated)
+    print("RESULT " + json.dumps(out))
+    sys.stdout.flush()
 '''
 
 FAKECC = r'''#!%(python)s
@@ -396,7 +478,7 @@ if gated:
     ack = open(os.path.join(ctl, "ack.%%s" %% me), "r")
 def gate(label):
     if gated:
-        req.write(json.dumps({"gate": label, "path": out}) + "\n"); req.flush()
+        req.write(json.dumps({"gate": label, "path": out, "ospid": os.getpid()}) + "\n"); req.flush()
         if not ack.readline():
             os._exit(98)
 half = len(data) // 2
@@ -441,6 +523,8 @@ class RealWorld:
         self.fds = {}
         self.buf = {}
         self.log = []
+        self.forked = {}            # pid -> OS pid of a worker forked by the zygote
+        self.zygote = None
 
     def env(self, pid=None, dll=None):
         e = dict(os.environ)
@@ -455,13 +539,37 @@ class RealWorld:
             e["VERIF_PROC"] = str(pid)
         return e
 
-    def start(self, pid):
+    def _fifos(self, pid):
         req = os.path.join(self.ctl, "req.%d" % pid)
         ack = os.path.join(self.ctl, "ack.%d" % pid)
         os.mkfifo(req)
         os.mkfifo(ack)
         self.fds[pid] = (os.open(req, os.O_RDWR | os.O_NONBLOCK), os.open(ack, os.O_RDWR))
         self.buf[pid] = b""
+
+    def start_forked(self, pids):
+        """Workers forked from one parent that has already imported sasmodels."""
+        for pid in pids:
+            self._fifos(pid)
+        env = self.env()
+        env["VERIF_MODE"] = "zygote"
+        self.zygote = subprocess.Popen([sys.executable, self.agent], env=env, stdin=subprocess.PIPE,
+                                       stdout=subprocess.PIPE, stderr=subprocess.PIPE, cwd=self.root)
+        self.zygote.stdin.write((json.dumps(list(pids)) + "\n").encode())
+        self.zygote.stdin.flush()
+        for _ in pids:
+            line = self.zygote.stdout.readline().decode().split()
+            if len(line) != 3 or line[0] != "FORKED":
+                raise Desync("zygote did not fork: %r %s" % (line, self.zygote.stderr.read()[-300:]))
+            self.forked[int(line[1])] = int(line[2])
+
+    def exited(self, pid):
+        if pid in self.forked:
+            return os.path.exists(os.path.join(self.ctl, "exit.%d" % pid))
+        return self.procs[pid].poll() is not None
+
+    def start(self, pid):
+        self._fifos(pid)
         self.procs[pid] = subprocess.Popen(
             [sys.executable, self.agent], env=self.env(pid), stdout=subprocess.PIPE,
             stderr=subprocess.PIPE, start_new_session=True, cwd=self.root)
@@ -481,7 +589,7 @@ class RealWorld:
                     continue
                 except BlockingIOError:
                     pass
-            elif self.procs[pid].poll() is not None:
+            elif self.exited(pid):
                 r, _, _ = select.select([fd], [], [], 0)
                 if not r:
                     return None
@@ -492,6 +600,15 @@ class RealWorld:
         os.write(self.fds[pid][1], b"go\n")
 
     def kill(self, pid):
+        if pid in self.forked:
+            try:
+                os.killpg(self.forked[pid], signal.SIGKILL)
+            except ProcessLookupError:
+                pass
+            deadline = time.time() + self.WAIT
+            while not self.exited(pid) and time.time() < deadline:
+                time.sleep(0.01)
+            return
         p = self.procs[pid]
         try:
             os.killpg(p.pid, signal.SIGKILL)
@@ -499,7 +616,22 @@ class RealWorld:
             pass
         p.wait()
 
+    def kill_compiler(self, gate_msg):
+        os.kill(int(gate_msg["ospid"]), signal.SIGKILL)
+
     def result(self, pid):
+        if pid in self.forked:
+            path = os.path.join(self.ctl, "result.%d" % pid)
+            if os.path.exists(path):
+                with open(path) as f:
+                    return json.load(f)
+            try:
+                with open(os.path.join(self.ctl, "exit.%d" % pid)) as f:
+                    status = int(f.read())
+            except Exception:
+                status = None
+            return {"ok": False, "error": "process died, wait status %s (signal %s)"
+                    % (status, status & 0x7f if status is not None else "?")}
         p = self.procs[pid]
         try:
             out, err = p.communicate(timeout=self.WAIT)
@@ -533,12 +665,25 @@ class RealWorld:
         return {"ok": False, "error": "process died rc=%s: %s" % (
             p.returncode, p.stderr.decode("utf8", "replace")[-300:])}, labels
 
-    def follow(self, nproc, trace):
-        for pid in range(nproc):
-            self.start(pid)
+    def follow(self, nproc, trace, kind="independent"):
+        if kind == "forked":
+            self.start_forked(range(nproc))
+        else:
+            for pid in range(nproc):
+                self.start(pid)
         pending = {pid: self.next_gate(pid) for pid in range(nproc)}
         killed = set()
         for step in trace:
+            if step[0] == "killcc":
+                _, pid, k, label = step
+                g = pending[pid]
+                if g is None or g["gate"] != label or "ospid" not in g:
+                    raise Desync("compiler kill point: model process %d is at %r, real process at %r"
+                                 % (pid, label, g))
+                self.kill_compiler(g)
+                self.log.append("KILL -9 the compiler of p%d at %s" % (pid, label))
+                pending[pid] = self.next_gate(pid)
+                continue
             if step[0] == "crash":
                 _, pid, k, label = step
                 g = pending[pid]
@@ -579,6 +724,17 @@ class RealWorld:
                 "size": os.path.getsize(path)}
 
     def close(self):
+        for pid in list(self.forked):
+            if not self.exited(pid):
+                self.kill(pid)
+        if self.zygote is not None:
+            try:
+                self.zygote.stdin.close()
+                self.zygote.wait(timeout=10)
+            except Exception:
+                self.zygote.kill()
+            for st in (self.zygote.stdout, self.zygote.stderr):
+                st.close()
         for pid in list(self.procs):
             if self.procs[pid].poll() is None:
                 self.kill(pid)
@@ -613,12 +769,15 @@ def real_replay(inputs):
         elif not basename:
             basename = os.path.basename(ref["dll"])
         try:
-            results, killed = w.follow(inputs["nproc"], inputs["trace"])
+            results, killed = w.follow(inputs["nproc"], inputs["trace"], inputs.get("kind", "independent"))
         except Desync as e:
             return {"violated": [], "summary": "replay lost step with the model: %s" % e,
                     "desync": True, "log": w.log[-30:]}
         violated = set()
-        bad = {pid: r for pid, r in results.items() if not _value_ok(r, ref)}
+        ck = inputs.get("compiler_killed")
+        excused = ck[0] if ck else None     # may report its failed build, must not return a bad kernel
+        bad = {pid: r for pid, r in results.items() if not _value_ok(r, ref)
+               and not (pid == excused and not r.get("ok") and r.get("exc_type"))}
         if bad:
             violated.add("live-load")
         quiescent = w.final_state(basename)
@@ -696,11 +855,13 @@ def validate_unit(cfg):
 def configs(chk):
     out = [{"validate": True, "dtype": "float64", "tier": chk.tier}]
     def add(n, bound, crash, dtype="float64", d=True, splits=(None,), ranges=((None, None),),
-            maxyield=40):
-        for sp in splits:
-            for rg in ranges:
-                out.append({"n": n, "bound": bound, "crash": crash, "dtype": dtype, "dir": d,
-                            "split": sp, "crash_range": rg, "tier": chk.tier, "maxyield": maxyield})
+            maxyield=40, kinds=("independent", "forked")):
+        for kind in kinds:
+            for sp in splits:
+                for rg in ranges:
+                    out.append({"n": n, "bound": bound, "crash": crash, "dtype": dtype, "dir": d,
+                                "split": sp, "crash_range": rg, "tier": chk.tier,
+                                "maxyield": maxyield, "kind": kind})
     two = [(0,), (1,)]
     three = [(0,), (1,), (2,)]
     cr = ((0, 3), (4, 6), (7, 9), (10, 40))
@@ -709,16 +870,16 @@ def configs(chk):
         add(2, None, True, splits=two, ranges=cr)
         add(3, 2, False, splits=three)
         add(3, 2, True, splits=three, ranges=cr)
-        add(2, None, False, dtype="float32", splits=two)
+        add(2, None, False, dtype="float32", splits=two, kinds=("independent",))
     else:
         add(2, None, False, splits=two)
         add(2, None, True, splits=two, ranges=cr)
-        add(2, None, True, d=False, splits=two, ranges=cr)
-        add(2, None, False, dtype="float32", splits=two)
+        add(2, None, True, d=False, splits=two, ranges=cr, kinds=("independent",))
+        add(2, None, False, dtype="float32", splits=two, kinds=("independent",))
         add(3, None, False, splits=[(a, b) for a in range(3) for b in range(3)])
         add(3, None, True, splits=[(a, b) for a in range(3) for b in range(3)], ranges=cr)
-        add(4, 3, False, splits=[(a, b) for a in range(4) for b in range(4)])
-        add(4, 2, True, splits=[(a,) for a in range(4)], ranges=cr)
+        add(4, 3, False, splits=[(a, b) for a in range(4) for b in range(4)], kinds=("independent",))
+        add(4, 2, True, splits=[(a,) for a in range(4)], ranges=cr, kinds=("independent",))
     return out
 
 
